@@ -125,6 +125,10 @@ def build(outcome, tier, seed, targets, rng, n_hist):
     for fmt, texts in AMBIGUOUS.items():
         for t in texts:
             pool[fmt].append((None, t))
+    # explicitly empty YAML documents (a marker line and nothing else) are documents too
+    for t in (b"---\n", b"--- # nothing here\n", b"---\n# only a comment\n"):
+        pool["yaml"].append((None, t))
+        pool["yaml"].append((None, t))
     # 1. single-document runs
     singles, sreqs = {}, []
     for to in targets:
